@@ -1,5 +1,6 @@
 import Holpy.Common.Sexp
 import Holpy.C16.Model
+import Holpy.C16.SimplexModel
 /-
 Line protocol for the C16 model (one s-expression in, one out):
   (omega FUEL ROWS)          -> (sat ((var val) ...) W) | (contr DERIV C) | noconcl | (error KIND)
@@ -9,6 +10,10 @@ Line protocol for the C16 model (one s-expression in, one out):
   (farkas ROWS COEFFS)       -> T | F          checkFarkas
   (deriv ROWS DERIV)         -> (T|F ROW) | (F none)    checkDeriv and the row the derivation proves
   (combine real|dark I F1 F2)-> ROW | none     the translated combine_*_factoid
+  (simplex FUEL INEQS)       -> (OUTCOME ATOMS STATE ...)   model of Simplex(): add_ineqs + handle_assertion;
+                                INEQS = ((ge|le ((var coeff) ...) bound) ...) with integer entries,
+                                OUTCOME = sat | (unsat xi) | (conflict k) | fuel, ATOMS = ((ge|le var bound) ...),
+                                STATE = ((basic ...) ((var value) ...)) after every check(), value = p/q
 ROWS = (ROW ...), ROW = (c1 ... cn c0), DERIV = (asm ROW) | (rc I D D) | (gcd D) | (dc D D)
 -/
 open Holpy Holpy.C16
@@ -40,6 +45,39 @@ def errTo : Err → String
   | .fuel => "fuel"
 
 def storeList (s : Store) (n : Nat) : List Int := (List.range n).map s.get
+
+/-! ### simplex -/
+open Holpy.C16.Simplex in
+def ineqOf : Sexp → Option Ineq
+  | .list [.atom k, js, b] => do
+    let kind ← if k == "ge" then some Kind.ge else if k == "le" then some Kind.le else none
+    let jars ← (← js.toList?).mapM fun
+      | .list [x, c] => do some ((← x.toNat?), ((← c.toInt?) : Rat))
+      | _ => none
+    some ⟨kind, jars, ((← b.toInt?) : Rat)⟩
+  | _ => none
+
+def ratTo (q : Rat) : Sexp := .atom (toString q.num ++ "/" ++ toString q.den)
+
+open Holpy.C16.Simplex in
+def stateTo (s : SState) : Sexp :=
+  .list [.list (s.rows.map fun r => Sexp.ofNat r.1), .list (s.vars.map fun x => .list [Sexp.ofNat x, ratTo (s.mapping x)])]
+
+open Holpy.C16.Simplex in
+def atomTo : Atom → Sexp
+  | .geq x c => .list [.atom "ge", Sexp.ofNat x, ratTo c]
+  | .leq x c => .list [.atom "le", Sexp.ofNat x, ratTo c]
+
+open Holpy.C16.Simplex in
+def handleSimplex (fuel : Nat) (qs : List Ineq) : String :=
+  let (s0, atoms) := addIneqs emptyState qs
+  let (o, tr) := handleAssertion fuel s0 atoms 0 []
+  let oc : Sexp := match o with
+    | .sat _ => .atom "sat"
+    | .unsat xi _ => .list [.atom "unsat", Sexp.ofNat xi]
+    | .conflict k _ => .list [.atom "conflict", Sexp.ofNat k]
+    | .fuel _ => .atom "fuel"
+  toString (Sexp.list ([oc, .list (atoms.map atomTo), stateTo s0] ++ tr.map stateTo))
 
 def handle (line : String) : String :=
   match Sexp.parse line with
@@ -84,6 +122,10 @@ def handle (line : String) : String :=
       | some r => toString (rowTo r)
       | none => "none"
     | _, _, _ => "bad-op"
+  | some (.list [.atom "simplex", fuel, qs]) =>
+    match fuel.toNat?, (qs.toList?.bind fun l => l.mapM ineqOf) with
+    | some f, some qs => handleSimplex f qs
+    | _, _ => "bad-op"
   | _ => "bad-op"
 
 end Holpy.C16.Driver
